@@ -181,7 +181,6 @@ def families(dialect):
         ("unique-a", lambda p, r, T: p.call(r, "unique", "a")),
         ("unique-b-c", lambda p, r, T: p.call(r, "unique", "b", "c")),
         ("primary-key", lambda p, r, T: p.call(r, "primary_key", "id")),
-        ("foreign-key", lambda p, r, T: p.call(r, "foreign_key", ["a"], T["t2"], ["id"])),
         ("temporary", lambda p, r, T: p.call(r, "temporary")),
         ("unlogged", lambda p, r, T: p.call(r, "unlogged")),
         ("if-not-exists", lambda p, r, T: p.call(r, "if_not_exists")),
